@@ -10,6 +10,7 @@ func TestReplay(t *testing.T) {
 	verif.ReplayMain(map[string]func(){
 		"HarnessClientCancel":       HarnessClientCancel,
 		"HarnessHTTPCancel":         HarnessHTTPCancel,
+		"HarnessManySubscriptions":  HarnessManySubscriptions,
 		"HarnessServerCancel":       HarnessServerCancel,
 		"HarnessSubscriptionCancel": HarnessSubscriptionCancel,
 	})
